@@ -881,6 +881,8 @@ func cmdCheck(args []string) int {
 			"own_violation_signatures":        total.OwnSigs,
 			"known_findings_seen":             len(knownPrinted),
 			"components":                      components,
+			"runs_by_kind":                    total.Kinds,
+			"exhaustive_per_unit":             prop == "C07",
 		},
 	}
 	eb, _ := json.MarshalIndent(ev, "", " ")
